@@ -62,6 +62,10 @@ unsafe impl GlobalAlloc for SimAlloc {
     }
 }
 
+pub fn set_alloc_junk_get(b: u8) -> u8 {
+    ALLOC_JUNK.swap(b, Ordering::Relaxed)
+}
+
 pub fn set_alloc_junk(b: u8) {
     ALLOC_JUNK.store(b, Ordering::Relaxed);
 }
